@@ -65,8 +65,16 @@ package magic
 
 // zip_hdr: ghost, the offset of the local file header whose name field the walk is looking at
 //@ func magic.zipContains
+//@   loop 1 unroll
 //@   loop 2 unroll
 //@   ghost return: zip_hdr = off(b) - off(raw) - 30
+// Bounded instances of the forward direction (marker among the first six entries is found): the
+// header positions are concrete, every byte is symbolic. e<k>: the marker is the k-th entry.
+//@   ensures [C19_bounded_e2_csz0] off(raw) == 0 && len(raw) == 100 && isBytesM(raw) && skipOK(raw, msoCheck) && len(sig) == 5 && csz(raw) == 0 && pkAt(raw, 49) && !nameIs(raw, 0, sig) && nameIs(raw, 49, sig) ==> result
+//@   ensures [C19_bounded_e2_csz7] off(raw) == 0 && len(raw) == 120 && isBytesM(raw) && skipOK(raw, msoCheck) && len(sig) == 5 && csz(raw) == 7 && noPK(raw, 56, 60) && pkAt(raw, 60) && !nameIs(raw, 0, sig) && nameIs(raw, 60, sig) ==> result
+//@   ensures [C19_bounded_e4_gap56] off(raw) == 0 && len(raw) == 230 && isBytesM(raw) && skipOK(raw, msoCheck) && len(sig) == 5 && csz(raw) == 0 && pkAt(raw, 49) && noPK(raw, 50, 105) && pkAt(raw, 105) && noPK(raw, 106, 161) && pkAt(raw, 161) && !nameIs(raw, 0, sig) && !nameIs(raw, 49, sig) && !nameIs(raw, 105, sig) && nameIs(raw, 161, sig) ==> result
+//@   ensures [C19_bounded_e3_gap56] off(raw) == 0 && len(raw) == 160 && isBytesM(raw) && skipOK(raw, msoCheck) && len(sig) == 5 && csz(raw) == 0 && pkAt(raw, 49) && noPK(raw, 50, 105) && pkAt(raw, 105) && noPK(raw, 106, 157) && !nameIs(raw, 0, sig) && !nameIs(raw, 49, sig) && nameIs(raw, 105, sig) ==> result
+//@   ensures [C19_bounded_e3_gap31] off(raw) == 0 && len(raw) == 160 && isBytesM(raw) && skipOK(raw, msoCheck) && len(sig) == 5 && csz(raw) == 0 && pkAt(raw, 49) && noPK(raw, 50, 80) && pkAt(raw, 80) && noPK(raw, 81, 157) && !nameIs(raw, 0, sig) && !nameIs(raw, 49, sig) && nameIs(raw, 80, sig) ==> result
 //@   ensures [C19_witness] result ==> 0 <= zip_hdr && zip_hdr + 30 + len(sig) <= len(raw) && (zip_hdr == 0 || pkAt(raw, zip_hdr)) && hasPrefix(raw[zip_hdr+30:], sig)
 //@   ensures [C19_layout1] len(raw) >= 30 && nameIs(raw, 0, sig) ==> result
 
